@@ -58,6 +58,31 @@ CHECKS = {
         "are rebuilt by replaying their shortest history on a fresh object.",
         "5/C12",
     ),
+    "C09": (
+        "exploration",
+        "bounded-exhaustive enumeration of sampled fuzzy sets with reference decision procedures on the implementation's sample vector",
+        "All ordered sets of 0..2 (and a bounded family of 3) activated terms over a 10-term alphabet x 4 degrees x 2 "
+        "implications x 4 aggregations x 4 ranges x resolutions (1..64, 100, 128, 999, 1000 in the thorough tier) are "
+        "defuzzified by the 5 real integral defuzzifiers. Op.midpoints and the aggregated membership at the sample "
+        "points are compared with the reference; centroid, bisector (mean of exactly tied points), SOM/MOM/LOM are "
+        "decided by reference procedures on the same sample vector; range, SOM<=MOM<=LOM, NaN-iff-all-zero, centroid "
+        "translation and batch==per-set are checked. Vacuity guards require >1000 exact multi-point ties.",
+        "Term alphabet of 10 shapes positioned relative to the range; bisector comparisons whose tie margin is below "
+        "1e-9 are counted as tie_margin_skipped instead of judged.",
+        "5/C09",
+    ),
+    "C10": (
+        "exploration",
+        "exhaustive enumeration of activation sequences against a reference model plus metamorphic relations",
+        "All activation sequences of length 0..L over Takagi-Sugeno, Tsukamoto (two groups), inverse-Tsukamoto and "
+        "mixed term groups x 4 degrees x {no aggregation, 9 S-norms} x 2 defuzzifiers x 3 types are defuzzified on the "
+        "real classes and compared with the reference grouped weighted average/sum (values and refusal classes); "
+        "grouped_terms/activation_degree, zero-degree removal, NaN-iff-no-weight, average-within-constants, "
+        "Automatic==explicit kind and batch==scalar runs are checked on every sequence.",
+        "L = 3 (quick) / 4 (thorough) for 4-term groups, one more for 2-term groups; heights 1; grouped degrees above "
+        "the height are compared NaN/inf-equal with the documented closed forms.",
+        "5/C10",
+    ),
     "C11": (
         "exploration",
         "bounded-exhaustive enumeration of monotonic terms x activation-degree grid with an intrinsic inverse oracle",
